@@ -191,6 +191,31 @@ def _some_value(T):
     return {'INTEGER': 41, 'OCTETSTRING': b'zz', 'BOOLEAN': True, 'ENUMERATED': 3}.get(T['k'], 1)
 
 
+def set_real_bases(obj, base):
+    """set the per-object BER encoding preference `binEncBase` on every REAL value inside obj -> number of REALs touched"""
+    from pyasn1.type import univ
+    if isinstance(obj, univ.Real):
+        if obj.isValue:
+            obj.binEncBase = base
+            return 1
+        return 0
+    n = 0
+    if isinstance(obj, univ.Choice):
+        if obj.isValue:
+            n += set_real_bases(obj.getComponent(), base)
+    elif isinstance(obj, (univ.SequenceOf, univ.SetOf)):
+        for k in range(len(obj)):
+            c = obj.getComponentByPosition(k, instantiate=False)
+            if c is not univ.noValue:
+                n += set_real_bases(c, base)
+    elif isinstance(obj, (univ.Sequence, univ.Set)):
+        for k in range(len(obj.componentType) if obj.componentType else 0):
+            c = obj.getComponentByPosition(k, default=None, instantiate=False)
+            if c is not None and c is not univ.noValue:
+                n += set_real_bases(c, base)
+    return n
+
+
 def chk_histories(T, v, M, rng):
     """C04: equal abstract content => identical DER and CER, whatever the construction history"""
     be, bd, ce, cd, de, dd, error, bridge = M
@@ -219,6 +244,11 @@ def chk_histories(T, v, M, rng):
             variants.append(('ber%r->decode' % (sorted(mode.items()),), bd.decode(be.encode(base, **mode), asn1Spec=spec)[0]))
         variants.append(('der->decode', dd.decode(d0, asn1Spec=spec)[0]))
         variants.append(('cer->decode', cd.decode(c0, asn1Spec=spec)[0]))
+        # REAL leaves that carry a BER tuning preference (Real.binEncBase, per object): the canonical encoders fix base 2
+        for b_ in (8, 16):
+            tuned = bridge.to_value(T, v)
+            if set_real_bases(tuned, b_):
+                variants.append(('reals-prefer-base-%d' % b_, tuned))
         used = bridge.to_value(T, v)
         read_only_uses(used, M)
         variants.append(('after-read-only-uses', used))
